@@ -314,6 +314,104 @@ theorem epochEnd_shares (s : State) (d : Bool) : SameShares s (s.epochEnd d) := 
   · exact ⟨fun _ => rfl, fun _ => rfl, fun _ => rfl, rfl⟩
   · exact (incentivesEpochEnd_shares s).trans (sponsEpochEnd_shares _)
 
+/-! ### world building ops: appended gauges / endorsements -/
+
+/-- the rollapp a gauge kind belongs to -/
+def kindRa : GKind → Option Nat
+  | .rollapp r => some r
+  | _ => none
+
+theorem raOf_eq_kindRa (gs : List Gauge) (g : Nat) :
+    raOf gs g = (gs.find? (·.id == g)).bind (fun x => kindRa x.kind) := by
+  unfold raOf
+  cases gs.find? (·.id == g) with
+  | none => rfl
+  | some x => simp only [Option.bind]; cases x.kind <;> rfl
+
+theorem raOf_append (gs : List Gauge) (ng : Gauge) (g : Nat) :
+    raOf (gs ++ [ng]) g =
+      match gs.find? (·.id == g) with
+      | some _ => raOf gs g
+      | none => if ng.id = g then kindRa ng.kind else none := by
+  rw [raOf_eq_kindRa, raOf_eq_kindRa, List.find?_append]
+  cases hf : gs.find? (·.id == g) with
+  | some x => simp
+  | none =>
+    simp only [Option.none_or, List.find?_cons, List.find?_nil]
+    by_cases hid : ng.id = g
+    · simp [hid]
+    · have : (ng.id == g) = false := by simpa using hid
+      simp [this, hid]
+
+theorem find_append_endo (es : List Endorsement) (ne : Endorsement) (r : Nat) :
+    (es ++ [ne]).find? (·.r == r) =
+      match es.find? (·.r == r) with
+      | some e => some e
+      | none => if ne.r = r then some ne else none := by
+  rw [List.find?_append]
+  cases hf : es.find? (·.r == r) with
+  | some x => simp
+  | none =>
+    simp only [Option.none_or, List.find?_cons, List.find?_nil]
+    by_cases hid : ne.r = r
+    · simp [hid]
+    · have : (ne.r == r) = false := by simpa using hid
+      simp [this, hid]
+
+theorem addGauge_shares {s s1 : State} {g : Gauge} (h : s.addGauge g = .ok s1) : SameShares s s1 := by
+  obtain ⟨⟨inc, rfl⟩, hnr, _⟩ := addGauge_ok h
+  refine ⟨fun gid => ?_, fun _ => rfl, fun _ => rfl, rfl⟩
+  show raOf (s.gauges ++ [newGauge (s.lastGauge + 1) g]) gid = raOf s.gauges gid
+  rw [raOf_append]
+  cases hf : s.gauges.find? (·.id == gid) with
+  | some x => rfl
+  | none =>
+    have hk : kindRa (newGauge (s.lastGauge + 1) g).kind = none := by
+      show kindRa g.kind = none
+      cases hk : g.kind with
+      | rollapp r => exact absurd hk (hnr r)
+      | asset => rfl
+      | endorsement r => rfl
+    have hra : raOf s.gauges gid = none := by rw [raOf_eq_kindRa, hf]; rfl
+    simp only [hk, hra]; split <;> rfl
+
+/-- a new rollapp `r'` leaves the rollapp gauge and the shares of every OTHER rollapp as they are -/
+theorem addRollapp_share {s s1 : State} {r' r gid : Nat} (h : s.addRollapp r' = .ok s1)
+    (hg : RaGauge s r gid) (hs : ShareInv s r gid) : ShareInv s1 r gid ∧ RaGauge s1 r gid := by
+  obtain ⟨hnone, rfl⟩ := addRollapp_ok h
+  have hne : r' ≠ r := by
+    intro e; subst e
+    have := hg.endo
+    unfold State.endorsement? at hnone
+    rw [hnone] at this; cases this
+  have hfind : (s.endorsements ++ [(⟨r', s.lastGauge + 1, 0, 0⟩ : Endorsement)]).find? (·.r == r) = s.endorsements.find? (·.r == r) := by
+    rw [find_append_endo]
+    cases hf : s.endorsements.find? (·.r == r) with
+    | some e => rfl
+    | none => have := hg.endo; rw [hf] at this; cases this
+  refine ⟨?_, ⟨fun g => ?_, ?_⟩⟩
+  · show totalOf (s.endorsements ++ [(⟨r', s.lastGauge + 1, 0, 0⟩ : Endorsement)]) r = vsum _ s.votes
+    unfold totalOf; rw [hfind]; exact hs
+  · show raOf (s.gauges ++ [{ id := s.lastGauge + 1, kind := .rollapp r', perpetual := true }]) g = some r ↔ g = gid
+    rw [raOf_append]
+    cases hf : s.gauges.find? (·.id == g) with
+    | some x => exact hg.only g
+    | none =>
+      have hra : raOf s.gauges g = none := by rw [raOf_eq_kindRa, hf]; rfl
+      have hgid : g ≠ gid := by
+        intro e; subst e
+        have := (hg.only g).mpr rfl
+        rw [hra] at this; cases this
+      simp only [kindRa]
+      constructor
+      · intro h1
+        split at h1
+        · injection h1 with h1; exact absurd h1 hne
+        · cases h1
+      · intro h1; exact absurd h1 hgid
+  · show ((s.endorsements ++ [(⟨r', s.lastGauge + 1, 0, 0⟩ : Endorsement)]).find? (·.r == r)).isSome
+    rw [hfind]; exact hg.endo
+
 /-! ### hooks and steps -/
 
 theorem hook_share {s s' : State} {a val r gid : Nat} {p : Option Int} (wf : WF s) (hg : RaGauge s r gid)
@@ -372,6 +470,18 @@ theorem step_share {s : State} {op : Op} {r gid : Nat} (wf : WF s) (inv : DistIn
   | fund g amt =>
     simp only [step]; split
     · rename_i s1 h; have := fund_shares h; exact ⟨this.share hs, this.raGauge hg⟩
+    · exact ⟨hs, hg⟩
+  | addGauge g =>
+    simp only [step]; split
+    · rename_i s1 h; have := addGauge_shares h; exact ⟨this.share hs, this.raGauge hg⟩
+    · exact ⟨hs, hg⟩
+  | addRollapp r' =>
+    simp only [step]; split
+    · rename_i s1 h; exact addRollapp_share h hg hs
+    · exact ⟨hs, hg⟩
+  | setParams ma mv =>
+    simp only [step]; split
+    · rename_i s1 h; obtain ⟨rfl, _⟩ := setParams_ok h; exact ⟨hs, ⟨hg.only, hg.endo⟩⟩
     · exact ⟨hs, hg⟩
 
 end DymVerif.Spons
